@@ -5,7 +5,9 @@
     Filled at REQUEST time, and therefore modelled (coq/C12/Model.v):
       ProtocolMixin.get_cls_attrs  (_attrcache),  ProtocolMixin.sort_fields (_sortcache),
       WsgiApplication.handle_wsdl_request (_wsdl), and - inside the build lock - everything
-      Wsdl11.build_interface_document / XmlSchema.build_schema_nodes and their helpers assign.
+      Wsdl11.build_interface_document / XmlSchema.build_schema_nodes and their helpers assign
+      (the build starts by emptying port_type_dict, binding_dict and service_elt_dict, so that a
+      build after one that failed half way does not reuse the nodes of the abandoned document).
     Interface.get_namespace_prefix runs while the interface is populated (every class namespace
     gets its prefix in add_class) and inside the build lock; a request only reaches its
     allocating branch for a namespace no registered class has.
@@ -43,8 +45,11 @@ Definition state_writers_expected : list string := (
   "interface/wsdl/wsdl11.py:Wsdl11._get_or_create_port_type:self.port_type_dict[]=" ::
   "interface/wsdl/wsdl11.py:Wsdl11._get_or_create_service_node:self.service_elt_dict[]=" ::
   "interface/wsdl/wsdl11.py:Wsdl11.build_interface_document:self.__wsdl=" ::
+  "interface/wsdl/wsdl11.py:Wsdl11.build_interface_document:self.binding_dict=" ::
+  "interface/wsdl/wsdl11.py:Wsdl11.build_interface_document:self.port_type_dict=" ::
   "interface/wsdl/wsdl11.py:Wsdl11.build_interface_document:self.root_elt=" ::
   "interface/wsdl/wsdl11.py:Wsdl11.build_interface_document:self.root_tree=" ::
+  "interface/wsdl/wsdl11.py:Wsdl11.build_interface_document:self.service_elt_dict=" ::
   "interface/wsdl/wsdl11.py:Wsdl11.build_interface_document:self.url=" ::
   "interface/xml_schema/_base.py:XmlSchema.build_schema_nodes:self.schema_dict=" ::
   "interface/xml_schema/_base.py:XmlSchema.build_validation_schema:self.validation_schema=" ::
